@@ -27,7 +27,18 @@ func nodesetInst(text string, cfg docCfg) *vm.Instance {
 	p := cfg.params()
 	p["expr"] = text
 	return &vm.Instance{ID: text + " @" + cfg.tag(), Harness: "H_nodeset", Params: p,
-		Extra: &vm.OracleExtra{Exprs: map[string]oracle.Expr{"expr": ast}}}
+		Extra: &vm.OracleExtra{Exprs: map[string]oracle.Expr{"expr": ast, "reuse": ast}}}
+}
+
+// withReuse makes H_nodeset select a second time with the same compiled expression
+// (every k-th instance; k = 1: all).
+func withReuse(insts []*vm.Instance, k int) []*vm.Instance {
+	for i, in := range insts {
+		if in.Harness == "H_nodeset" && i%k == 0 {
+			in.Params["reuse"] = "1"
+		}
+	}
+	return insts
 }
 
 // canaryInst: the engine runs text, the obligation uses the (different) reference of wrong.
